@@ -192,7 +192,10 @@ func (g *Gateway) handleWebsocketProtocol(ctx context.Context, c *websocket.Conn
 // and RDG_OUT_DATA for server -> client data. The handshakeRequest procedure is a bit different
 // to ensure the connections do not get cached or terminated by a proxy prematurely.
 func (g *Gateway) handleLegacyProtocol(w http.ResponseWriter, r *http.Request, t *Tunnel) {
-	log.Printf("Session %s, %t, %t", t.RDGId, t.transportOut != nil, t.transportIn != nil)
+	t.attachMu.Lock()
+	hasIn := t.transportIn != nil
+	t.attachMu.Unlock()
+	log.Printf("Session %s, %t, %t", t.RDGId, t.transportOut != nil, hasIn)
 
 	id := identity.FromRequestCtx(r)
 	if r.Method == MethodRDGOUT {
@@ -230,9 +233,16 @@ func (g *Gateway) handleLegacyProtocol(w http.ResponseWriter, r *http.Request, t
 		}
 		defer in.Close()
 
-		if t.transportIn == nil {
+		// only the first RDG_IN_DATA request gets the tunnel, also when two arrive at once
+		t.attachMu.Lock()
+		first := t.transportIn == nil
+		if first {
 			t.Id = uuid.New().String()
 			t.transportIn = in
+		}
+		t.attachMu.Unlock()
+
+		if first {
 			c.Set(t.RDGId, t, cache.DefaultExpiration)
 
 			// the RDG_OUT_DATA connection was hijacked by an earlier request and is
